@@ -2,7 +2,8 @@
    Dumping three whole partitions after every operation of a history is what the correspondence check would like
    to compare, but the volume makes Coq's parser and printer the bottleneck; the same information is carried by the
    first dump (empty partitions at hand-over) and the changes.  Definitions only. *)
-Require Import V.Base.MachineInt V.Model.LogBase.
+Require Import V.Base.MachineInt.
+Require Import V.Model.LogBase.
 Open Scope Z_scope.
 
 (* a, b: sparse words in increasing offset order.  Result: (offset, value now) for every word whose value differs,
